@@ -16,6 +16,7 @@ import (
 	"net"
 	"net/http"
 	"os"
+	"path/filepath"
 	"sort"
 	"strconv"
 	"strings"
@@ -43,6 +44,7 @@ type c18nStep struct {
 	Op   string `json:"op,omitempty"`
 	K    int    `json:"key,omitempty"`
 	N    int    `json:"n,omitempty"`
+	U    int    `json:"u,omitempty"` // fhostile: which structurally valid but unsupported transaction
 }
 
 type c18nCase struct {
@@ -66,6 +68,10 @@ func genC18Nodes(t *rapid.T) interface{} {
 		case 9:
 			s.Kind = "fwatch"
 		case 10:
+			if DrawBool(t, 50, "hostile") {
+				s.Kind, s.U = "fhostile", DrawIntn(t, len(c16Unsupported), "u")
+				break
+			}
 			s.Kind, s.N = "burst", rapid.IntRange(3, 25).Draw(t, "burst")
 		default:
 			s.Kind = "status"
@@ -450,6 +456,10 @@ func unavailable(err error) bool {
 func runC18Nodes(ci interface{}, st *CaseStats) error {
 	c := ci.(*c18nCase)
 	t0 := time.Now()
+	if js, jerr := json.Marshal(c); jerr == nil {
+		// if this process dies, the driver attributes the death to this case
+		_ = os.WriteFile(filepath.Join(outDir(), fmt.Sprintf("C18.%s.current.json", shardName())), js, 0o644)
+	}
 	// the store stays open until the process exits: the electors cannot be stopped and treat a lost lease as fatal
 	eng, err := OpenEngine(EngMem)
 	if err != nil {
@@ -587,6 +597,30 @@ func runC18Nodes(ci interface{}, st *CaseStats) error {
 					return err
 				}
 			}
+		case "fhostile":
+			// a transaction of a shape kube-apiserver never sends, addressed to the follower: with the proxy on it is
+			// forwarded (or refused) without the follower looking inside; it must be answered with an error by
+			// somebody, change nothing, and both nodes must keep serving (a panic in a handler kills the process: the
+			// driver attributes the death of this worker to the case in flight)
+			variant := c16Unsupported[s.U%len(c16Unsupported)]
+			if c16KnownExecuted[variant] {
+				st.Count("redirected:unsupported-shape-executed:"+variant, 1)
+				continue
+			}
+			other := w.keys[(s.K+1)%len(w.keys)]
+			ctx, cancel := c18nCtx()
+			resp, err := w.follower.kv.Txn(ctx, buildUnsupported(variant, []byte(key), []byte(other), val, int64(w.model[key].rev)))
+			cancel()
+			what := fmt.Sprintf("step %d: unsupported transaction %q sent to the follower (proxy=%v, leader down=%v)", si, variant, c.Proxy, w.down)
+			if err == nil {
+				return fmt.Errorf("%s was answered (succeeded=%v) instead of being refused", what, resp.GetSucceeded())
+			}
+			if !w.down {
+				if err := w.storeUnchanged(what); err != nil {
+					return err
+				}
+			}
+			st.Label("follower-unsupported-txn-refused")
 		case "fwatch":
 			if err := w.followerWatch(si, s.API, c.Proxy, st); err != nil {
 				return err
